@@ -214,6 +214,12 @@ def check_kth_sibling(R, prog):
         fi = prog.func(MOD, q)
         loops = [s for s in fi.node.body if isinstance(s, ast.For) and src(s.iter) == "parser"]
         if not loops:
+            from . import _graphio_fold as _gio
+            rt = _gio.verdict(prog)
+            if rt[0] is True:              # (the ordering refusals are among the damaged texts the folding feeds the readers)
+                R.unknown("KTH-SIBLING", "%s ordering check" % q, fi.key,
+                          "shape not recognised (loop over the parsed lines not found); the meaning of the fragment was confirmed by folding: " + rt[1])
+                continue
             raise AnalysisError("%s: loop over the parsed lines not found" % q)
         lp = loops[0]
         v = src(lp.target.elts[0])
